@@ -527,9 +527,10 @@ int main(int argc, char ** argv) {
 			// Don't free folder -- owned by dirname
 		}
 
-		if (a_file->count == 1) {
+		if ((a_file->count == 1) && (folder == NULL)) {
 			// Must do this after realpath, b/c on some OS's (e.g. Travis-CI linux)
-			// this truncates a_file->filename[0]
+			// this truncates a_file->filename[0] -- and for the same reason must not
+			// be done twice (the second call would return the parent's parent)
 			folder = dirname((char *) a_file->filename[0]);
 		}
 
